@@ -590,4 +590,14 @@ def no_shared_parts(repo: Repo) -> RuleRun:
 
 no_shared_parts.rule_id = "C10.NO-SHARED-PARTS"
 
-RULES = [face_permutations, edge_map_rule, side_addressing, select_polarity, arguments_untouched, written_sides, no_class_state, affine_kinds, no_shared_parts]
+def corner_patches(repo: Repo) -> RuleRun:
+    """'a side name addresses that side': the corner/side lookup used for projecting and patching. Same rule as C05.CORNER-PATCHES."""
+    from ..report import rebrand
+    from . import c05
+
+    return rebrand(c05.corner_patches(repo), PROP, "C10.CORNER-PATCHES")
+
+
+corner_patches.rule_id = "C10.CORNER-PATCHES"
+
+RULES = [face_permutations, edge_map_rule, side_addressing, select_polarity, arguments_untouched, written_sides, no_class_state, affine_kinds, no_shared_parts, corner_patches]
